@@ -176,6 +176,12 @@ func decorate(t *rapid.T, doc *jv.V, draft7 bool) (*jv.V, []string) {
 				if draft7 {
 					kw = "definitions"
 				}
+				// (never the second spelling beside the first: that is the open finding's own slice)
+				if loc.Has("$defs") {
+					kw = "$defs"
+				} else if loc.Has("definitions") {
+					kw = "definitions"
+				}
 				dr := refmodel.D2020
 				if draft7 {
 					dr = refmodel.D7
